@@ -72,6 +72,21 @@ def digitsValue (s : String) : Nat := s.toList.foldl (fun a c => a * 10 + (c.toN
 def intLiteralInRange (s : String) : Bool :=
   !s.isEmpty && s.toList.all Char.isDigit && decide (digitsValue s ≤ 9223372036854775807)
 
+mutual
+/-- the texts of the nodes of rule `il` (oC_IntegerLiteral): the concatenation of their terminal children -/
+def intLiteralTexts (il : Nat) : Tree → List String
+  | .node r kids => if r == il then [String.join (kids.map (fun k => match k with | .leaf s => leafText s | .err s => leafText s | .node _ _ => ""))]
+      else intLiteralTextsL il kids
+  | .leaf _ => []
+  | .err _ => []
+def intLiteralTextsL (il : Nat) : List Tree → List String
+  | [] => []
+  | t :: ts => intLiteralTexts il t ++ intLiteralTextsL il ts
+end
+
+/-- "invalid integer literal" errors: one for every integer literal of the tree that ParseInt cannot read -/
+def intLiteralErrors (il : Nat) (t : Tree) : Nat := ((intLiteralTexts il t).filter (fun s => !(intLiteralInRange s))).length
+
 /-- guard atoms are functions of the node's direct children only -/
 def evalAtom (code : Nat × Nat) (kids : List Tree) : Bool :=
   match code.1 with
